@@ -417,14 +417,16 @@ func (s *abciSock) abciDoCallX(ci *abciCall, pad string, rng *rand.Rand) {
 // ---------------------------------------------------------------------------- local client
 
 type abciLocal struct {
-	tr    *abciTrace
-	app   *abciApp
-	clis  map[string]Client
-	mu    sync.Mutex
-	calls map[int]*abciCall
-	self  int64
-	ncbS  int
-	ncbE  int
+	tr      *abciTrace
+	app     *abciApp
+	clis    map[string]Client
+	mu      sync.Mutex
+	calls   map[int]*abciCall
+	self    int64
+	ncbS    int
+	ncbE    int
+	cbgates map[string]chan struct{} // label -> the global callback blocks until closed
+	inCb    []string
 }
 
 func (lc *abciLocal) quiescent() bool {
@@ -484,11 +486,12 @@ func (lc *abciLocal) obs(settled, final bool) {
 		}
 	}
 	nS, nE := lc.ncbS, lc.ncbE
+	incb := append([]string{}, lc.inCb...)
 	lc.mu.Unlock()
 	lc.app.mu.Lock()
 	inapp := append([]string{}, lc.app.inGate...)
 	lc.app.mu.Unlock()
-	lc.tr.ev("LObs", abciM{"settled": settled, "final": final, "busy": busy, "inflight": infl, "inapp": inapp, "ncbS": nS, "ncbE": nE})
+	lc.tr.ev("LObs", abciM{"settled": settled, "final": final, "busy": busy, "inflight": infl, "inapp": inapp, "incb": incb, "ncbS": nS, "ncbE": nE})
 }
 
 func (lc *abciLocal) globalCb(conn string) Callback {
@@ -496,8 +499,15 @@ func (lc *abciLocal) globalCb(conn string) Callback {
 		lab := abciCut(abciReqLabel(req))
 		lc.mu.Lock()
 		lc.ncbS++
+		ch := lc.cbgates[lab]
+		if ch != nil {
+			lc.inCb = append(lc.inCb, lab)
+		}
 		lc.mu.Unlock()
 		lc.tr.ev("CbS", abciM{"k": "g", "r": lab, "x": abciCut(abciResLabel(res)), "rt": abciReqTyp(req), "xt": abciResTyp(res), "by": "caller", "conn": conn})
+		if ch != nil {
+			<-ch
+		}
 		lc.mu.Lock()
 		lc.ncbE++
 		lc.mu.Unlock()
@@ -559,7 +569,8 @@ func abciLocalRun(tr *abciTrace, run abciRun) {
 	tr.ev("Mode", abciM{"mutex": "shared"})
 	app := &abciApp{tr: tr, rng: rand.New(rand.NewSource(1)), gates: map[string]chan struct{}{}}
 	mtx := new(tmsync.Mutex)
-	lc := &abciLocal{tr: tr, app: app, clis: map[string]Client{}, calls: map[int]*abciCall{}, self: abciGid()}
+	lc := &abciLocal{tr: tr, app: app, clis: map[string]Client{}, calls: map[int]*abciCall{}, self: abciGid(),
+		cbgates: map[string]chan struct{}{}}
 	for _, conn := range []string{"consensus", "mempool", "query", "snapshot"} {
 		c := NewLocalClient(mtx, app) // what proxy.localClientCreator.NewABCIClient does
 		c.SetResponseCallback(lc.globalCb(conn))
@@ -580,12 +591,15 @@ func abciLocalRun(tr *abciTrace, run abciRun) {
 				lab = "F"
 			}
 			ci := &abciCall{call: call, t: st.str("conn"), kind: kind, label: lab, done: make(chan struct{})}
-			if st.flag("gate") {
+			if st.str("gate") == "app" {
 				app.mu.Lock()
 				app.gates[lab] = make(chan struct{})
 				app.mu.Unlock()
 			}
 			lc.mu.Lock()
+			if st.str("gate") == "cb" {
+				lc.cbgates[lab] = make(chan struct{})
+			}
 			lc.calls[call] = ci
 			lc.mu.Unlock()
 			ready := make(chan struct{})
@@ -611,6 +625,23 @@ func abciLocalRun(tr *abciTrace, run abciRun) {
 				tr.ev("ReleaseApp", abciM{"r": lab})
 				close(ch)
 			}
+		case "ReleaseCb":
+			lc.mu.Lock()
+			var ch chan struct{}
+			lab := ""
+			if len(lc.inCb) > 0 {
+				lab = lc.inCb[0]
+				lc.inCb = lc.inCb[1:]
+				ch = lc.cbgates[lab]
+				delete(lc.cbgates, lab)
+			}
+			lc.mu.Unlock()
+			if ch == nil {
+				tr.ev("Skip", abciM{"step": "ReleaseCb", "why": "nobody in a callback"})
+			} else {
+				tr.ev("ReleaseCb", abciM{"r": lab})
+				close(ch)
+			}
 		default:
 			tr.ev("Skip", abciM{"step": st.str("name"), "why": "unknown step"})
 		}
@@ -624,6 +655,12 @@ func abciLocalRun(tr *abciTrace, run abciRun) {
 	}
 	app.gates = map[string]chan struct{}{}
 	app.mu.Unlock()
+	lc.mu.Lock()
+	for _, ch := range lc.cbgates {
+		close(ch)
+	}
+	lc.cbgates = map[string]chan struct{}{}
+	lc.mu.Unlock()
 	lc.settle()
 }
 
